@@ -219,11 +219,17 @@ class RaggedArray:
     #  and self._indices and returning length increases
 
     def _append(self, array, fdv, fdi, vlen):
-        size = len(array)
-        #endindex = self._values._memmap.shape[0]
-        vlenincr = self._values._append(np.asarray(array, dtype=self.dtype),
-                                        fdv)
-        ilenincr = self._indices._append([[vlen, vlen + size]], fdi)
+        vpos, ipos = fdv.seek(0, 2), fdi.seek(0, 2)
+        try:
+            size = len(array)
+            #endindex = self._values._memmap.shape[0]
+            vlenincr = self._values._append(np.asarray(array,
+                                                       dtype=self.dtype), fdv)
+            ilenincr = self._indices._append([[vlen, vlen + size]], fdi)
+        except Exception:  # leave both files as they were before this array
+            fdv.truncate(vpos)
+            fdi.truncate(ipos)
+            raise
         return (vlenincr, ilenincr)
 
     def append(self, array):
@@ -358,19 +364,21 @@ class RaggedArray:
         if self._accessmode != 'r+':
             raise OSError(f"Accesmode should be 'r+' "
                           f"(now is '{self._accessmode}')")
-        with self.open_arrays() as ((iv, vv), (fdv, fdi)):
-            vlenincr = 0
-            ilenincr = 0
-            vlen = self._values.shape[0]
-            for a in arrayiterable:
-                vli, ili = self._append(a, fdv, fdi, vlen+vlenincr)
-                vlenincr += vli
-                ilenincr += ili
-        self._values._update_len(lenincrease=vlenincr)
-        self._indices._update_len(lenincrease=ilenincr)
-        self._update_arraydescr(len=len(self._indices),
-                                size=self._values.size)
-        self._update_readmetxt()
+        vlenincr = 0
+        ilenincr = 0
+        try:
+            with self.open_arrays() as ((iv, vv), (fdv, fdi)):
+                vlen = self._values.shape[0]
+                for a in arrayiterable:
+                    vli, ili = self._append(a, fdv, fdi, vlen+vlenincr)
+                    vlenincr += vli
+                    ilenincr += ili
+        finally:  # arrays appended before a failure are kept
+            self._values._update_len(lenincrease=vlenincr)
+            self._indices._update_len(lenincrease=ilenincr)
+            self._update_arraydescr(len=len(self._indices),
+                                    size=self._values.size)
+            self._update_readmetxt()
 
     def readcode(self, language, abspath=False, basepath=None):
         """Generate code to read the array in a different language.
